@@ -4,3 +4,4 @@ import ChiProofs.Props.C01
 import ChiProofs.Props.C08
 import ChiProofs.Props.C02
 import ChiProofs.Props.C03
+import ChiProofs.Props.C17
